@@ -73,6 +73,28 @@ check("C10", "TLA+ heap model of reads/mutations/writes (ChannelsAlgo) model-che
       "parameters cycling through the whole channel/encoding/newline product, and Trace_Channels requires every read to "
       "return exactly the pristine result of its (content, options), every non-ASCII token of the header to survive, "
       "and every mutation or write of one result to leave all other live results unchanged.", TRUSTED, "DESIGN.md 4 C10")
+READ = ("Model checking of the instance space + trace validation: TLC enumerates the abstract LAS texts of the family "
+        "(ReadInstances.tla), checks the domain predicate LegalText and the model-level properties Partition and OnlyVandWsteer "
+        "of the intent function LasRead!Read on each; every text is concretised (spellings, padding, title styles, newlines are "
+        "presentation chosen by seed), read by real lasio, and the projected result must equal LasRead!Read(text, opts), "
+        "evaluated by TLC in Trace_Read, clause by clause. ")
+check("C02", "TLA+ intent function LasRead!Read over the TLC-enumerated family C02 (decorated data blocks x following sections); "
+      "both engines run on every concretised text; Trace_Read (TLC) compares both with the model and with each other, bits included",
+      READ + "For C02 both engines read every text; the LASIO_VERIF hook proves the fast path produced the result wherever "
+      "genfromtxt can stop by itself (otherwise the check exits 2 as vacuous).", TRUSTED, "DESIGN.md 4 C02")
+check("C05", "TLA+ intent function LasRead!Read over the TLC-enumerated family C05 (all orders of all subsets of sections, ~A "
+      "anywhere, empty sections, steering names elsewhere, VERS 1.2/2.0); Trace_Read (TLC) compares the real result with the model",
+      READ, TRUSTED, "DESIGN.md 4 C05")
+check("C06", "TLA+ NULL rule (LasRead!CellOut) over the TLC-enumerated family C06 (all class masks x text column x policy x NULL "
+      "present x wrapped); six NULL values and their spellings; Trace_Read (TLC) compares both engines' results with the model",
+      READ, TRUSTED, "DESIGN.md 4 C06")
+check("C07", "TLA+ column binding (LasRead!Curves) over the TLC-enumerated family C07 (d, c, r, decorations, wrapped layouts); cells "
+      "carry their coordinates; Trace_Read (TLC) compares both engines' results with the model",
+      READ, TRUSTED, "DESIGN.md 4 C07")
+check("C19", "TLA+ intent function LasRead!Read with junk lines over the TLC-enumerated family C19 (every insertion site, one or two "
+      "junk lines, flag on/off) x pooled and seeded random junk; Trace_Read (TLC): no exception with the flag, genuine items kept, "
+      "only LASHeaderError naming a junk line without it",
+      READ, TRUSTED, "DESIGN.md 4 C19")
 
 
 def main():
